@@ -28,15 +28,16 @@ ASSUMPTIONS = [
     "suspension points are the gates placed in async dependencies, the task body and the result backend",
 ]
 TRUSTED = ["taskiq_dependencies 1.5.7 (executed)", "CPython asyncio (real, virtual clock)", "vt.sym explorer"]
-BOUNDS = {"concurrent executions": "2 (direct callbacks), 3 messages through Receiver.listen with max_async_tasks 1 and 2", "dependency shapes": 6, "suspension points per execution": "<= 4"}
+BOUNDS = {"concurrent executions": "2 (quick) / 2 and 3 (thorough) direct callbacks; 3 (quick) / 3 and 4 (thorough) messages through Receiver.listen with max_async_tasks 1 and 2", "dependency shapes": 6, "suspension points per execution": "<= 4"}
 REQUIRED_COVERS = ["interleaved_in_resolution", "nocache", "nested", "generator", "cached", "via_listen"]
 SHAPES = ("cached", "nocache_after_wait", "nested_nocache", "generator_nocache", "sync_nocache", "ctx_param_only")
 
 
 def cases(tier: str, hname: str) -> List[Any]:
     if hname == "direct":
-        return [{"shape": s} for s in SHAPES]
-    return [{"shape": s, "A": a} for s in ("nocache_after_wait", "nested_nocache") for a in (2, 1)]
+        return [{"shape": s, "n": n} for s in SHAPES for n in ((2,) if tier == "quick" else (2, 3))]
+    return [{"shape": s, "A": a, "msgs": m} for s in ("nocache_after_wait", "nested_nocache") for a in (2, 1)
+            for m in ((3,) if tier == "quick" else (3, 4))]
 
 
 def via_listen(c: sym.Ctx, case: Dict[str, Any]) -> None:
@@ -71,12 +72,12 @@ def via_listen(c: sym.Ctx, case: Dict[str, Any]) -> None:
     try:
         broker = make_broker(lab)
         broker.register_task(task, task_name="t")
-        n = 3
+        n = case.get("msgs", 3)
         broker.script = [ackable(lab, i, encode(broker, "t", f"id{i}", [i], {"who": f"L{i}"}), False) for i in range(n)]
         recv = Receiver(broker, executor=InlineExecutor(), run_startup=False, max_async_tasks=case["A"], max_prefetch=1)
         finish = asyncio.Event()
         main = lab.loop.create_task(recv.listen(finish))
-        for _ in range(200):
+        for _ in range(400):
             lab.loop.settle()
             if main.done():
                 break
@@ -98,7 +99,7 @@ def via_listen(c: sym.Ctx, case: Dict[str, Any]) -> None:
         lab.close()
     c.cover("via_listen")
     c.check(done, "listen_completes")
-    check_results(c, lab, 3, case["shape"])
+    check_results(c, lab, case.get("msgs", 3), case["shape"])
 
 
 def harness(c: sym.Ctx, case: Dict[str, Any]) -> None:
@@ -173,7 +174,8 @@ def harness(c: sym.Ctx, case: Dict[str, Any]) -> None:
 
         broker.register_task(task, task_name="t")
         recv = Receiver(broker, executor=InlineExecutor(), run_startup=False, max_async_tasks=None)
-        msgs = [ackable(lab, i, encode(broker, "t", f"id{i}", [i], {"who": f"L{i}"}), False) for i in range(2)]
+        nmsg = case.get("n", 2)
+        msgs = [ackable(lab, i, encode(broker, "t", f"id{i}", [i], {"who": f"L{i}"}), False) for i in range(nmsg)]
 
         async def main() -> None:
             tasks = [asyncio.ensure_future(recv.callback(message=m, raise_err=False)) for m in msgs]
@@ -185,9 +187,9 @@ def harness(c: sym.Ctx, case: Dict[str, Any]) -> None:
         lab.close()
     c.check(lab.main_done if hasattr(lab, "main_done") else mt.done(), "both_executions_complete", deadlock=lab.deadlock)
     order = [e[0] for e in lab.ev if e[0] in ("slow_done",)]
-    if len(order) == 2 and lab.index("slow_done") < lab.index("set_result", "begin"):
+    if len(order) >= 2 and lab.index("slow_done") < lab.index("set_result", "begin"):
         c.cover("interleaved_in_resolution")
-    check_results(c, lab, 2, shape)
+    check_results(c, lab, case.get("n", 2), shape)
 
 
 def check_results(c: sym.Ctx, lab: Any, n: int, shape: str) -> None:
